@@ -323,10 +323,11 @@ func (v *AVCDecoderConfigurationRecord) MarshalBinary() ([]byte, error) {
 	buf.WriteByte(byte(v.AVCProfileIndication))
 	buf.WriteByte(byte(v.profileCompatibility))
 	buf.WriteByte(byte(v.AVCLevelIndication))
-	buf.WriteByte(byte(v.LengthSizeMinusOne))
+	// reserved '111111'b, lengthSizeMinusOne
+	buf.WriteByte(0xfc | byte(v.LengthSizeMinusOne)&0x03)
 
-	// numOfSequenceParameterSets
-	buf.WriteByte(byte(len(v.SequenceParameterSetNALUnits)))
+	// reserved '111'b, numOfSequenceParameterSets
+	buf.WriteByte(0xe0 | byte(len(v.SequenceParameterSetNALUnits))&0x1f)
 	for _, sps := range v.SequenceParameterSetNALUnits {
 		b, err := sps.MarshalBinary()
 		if err != nil {
